@@ -15,6 +15,7 @@ def plan(tier, seed):
             ch("C04", F, "h_cat_stats_nulls", t, wc_lattice.FUN, env=envc)]
     jobs.append(ch("C04", "vf/pyshim/h_convert.py", "h_convert_intlike", t,
                    ["converted_types.convert (integer-like converted types; decoded statistics)"]))
+    jobs.append(ch("C04", "vf/pyshim/h_c09.py", "h_readonly_leaves_statistics", t, ["api.sorted_partitioned_columns", "api.ParquetFile.statistics", "api.statistics"]))
     jobs.append(ch("C04", "vf/pyshim/h_c09.py", "h_handle_after_remove", t,
                    ["api.ParquetFile.remove_row_groups", "api.ParquetFile.statistics", "api.statistics"]))
     # sorted_partitioned_columns(filters=...) pairs the per-row-group bounds with the index list of the surviving row
